@@ -18,9 +18,9 @@ FAILED_NAMES=$(cargo test --workspace --no-fail-fast --offline 2>&1 | grep -E "^
 OTHER_FAILED=$(echo -n "$FAILED_NAMES" | tr -cd ';' | wc -c)
 mv /tmp/seeded_demo_aside.rs tests/seeded_demo.rs
 cargo test --offline --test seeded_demo >/tmp/demo_with.log 2>&1; WITH=$?
-git stash push -q -- src
+git checkout -q -- src
 cargo test --offline --test seeded_demo >/tmp/demo_without.log 2>&1; WITHOUT=$?
-git stash pop -q
+git apply $OUT/patch.diff
 echo "suite failures outside demo (with change): $OTHER_FAILED ; demo rc with=$WITH without=$WITHOUT"
 # run the check against /repo with the patch
 cd /repo && git apply $OUT/patch.diff || { echo "PATCH DOES NOT APPLY"; exit 3; }
